@@ -41,5 +41,10 @@ with open("/verif/seeded/INDEX.md", "w") as f:
   is the only receiver of the harvest channel with ticks in flight; used by C12 and by C11's `stop` batch.
 * C17-a / C17-b (shared supportability map, shared label slice): the race scenarios gained a free-running trace observer with the real
   harvest-side reader, and agents that send every container incl. log labels with the event limits an agent announces.
+* Rounds two to five: the misses of each round and what was strengthened are listed in DESIGN.md section 7 (a table per round from
+  the fourth on).  Seeds whose files were later touched by a `fix:` commit (C05-g, C07-g: `MetricTable.ApplyRules / MergeFailed`,
+  a3f8a47) were confirmed on the HEAD of their time; their patches no longer apply to the current one.
+* "caught (no-failing-input-found)" means: a proof obligation or a tie broke, or model and implementation differ on generated
+  sequences, but no input was found on which a Spec (the property's own wording evaluated on the implementation) fails.
 """)
 print("written", len(rows))
